@@ -129,15 +129,16 @@ ReleaseEff(p, id) ==
   ELSE [halt |-> halt[p], wl |-> wl[p], old |-> 0]
 
 \* handlePostTx -> WriteLTXFileAt (position check) + ApplyLTXNoLock
-TxEff(p, lid, e, sender) ==
-  LET contig == e.t = pos[p].t + 1 /\ e.pre = pos[p].c
+TxEffS(p, ppos, plog, lid, e, sender) ==
+  LET contig == e.t = ppos.t + 1 /\ e.pre = ppos.c
       cur    == HasLock(p) /\ halt[p].id = lid
       acc    == contig /\ (TxHolderCheck => cur)
   IN [acc |-> acc,
-      pos |-> IF acc THEN PosOf(e) ELSE pos[p],
-      log |-> IF acc THEN Append(log[p], e) ELSE log[p],
+      pos |-> IF acc THEN PosOf(e) ELSE ppos,
+      log |-> IF acc THEN Append(plog, e) ELSE plog,
       bad |-> acc /\ ~(cur /\ sender = "R"),
       fpub |-> acc /\ ~cur /\ lid \in former]
+TxEff(p, lid, e, sender) == TxEffS(p, pos[p], log[p], lid, e, sender)
 
 FormerPlus(old) == IF old = 0 THEN former ELSE former \cup {old}
 
@@ -193,6 +194,11 @@ Quiet == /\ \A n \in Replicas : ~CanDeliver(n) \/ Stuck(n)
          /\ ~(rpc = "wait" /\ pos["R"] = rlock.pos /\ rlock.id # 0)
 Budget == MaxSteps = 0 \/ steps < MaxSteps
 Go == Budget /\ (Eager => Quiet) /\ rpc = "idle"
+\* Replay scripts (Eager) keep /tx away from a node whose local writer is open: as written the file is
+\* then applied underneath that writer (C11's subject; observed on the real code: checksum mismatch in
+\* ApplyLTXNoLock and Store.Exit(99) of the primary in rollback mode).  The exhaustive configurations
+\* keep these interleavings.
+NoTxUnderWriter(p) == Eager => wl[p] # "lw"
 
 Faults == {"none", "reqlost", "resplost"}
 FaultOK(f, d) == nfault + (IF f = "none" THEN 0 ELSE 1) + (IF d THEN 1 ELSE 0) <= MaxFaults
@@ -253,40 +259,49 @@ AcqTimeout ==
 \* one write transaction of the application on R; its commit forwards the LTX file first
 RTx(f, d) ==
   /\ Go /\ ntx < MaxTx /\ FaultOK(f, d)
+  /\ (wedged \/ rlock.id = 0 \/ ~conn["R"] \/ NoTxUnderWriter(primary))
   /\ LET p == primary
          e == [t |-> pos["R"].t + 1, pre |-> pos["R"].c, c |-> ntx + 1, node |-> "R", snap |-> FALSE]
      IN
      IF wedged
      THEN /\ f = "none" /\ ~d /\ nidle < MaxIdle /\ nidle' = nidle + 1
           \* the stuck stream goroutine owns R's write lock: SQLITE_BUSY at BEGIN
-          /\ H("RTx", [f |-> f, d |-> d], [res |-> "busy", t |-> 0, c |-> 0, acc |-> FALSE])
+          /\ H("RTx", [f |-> f, d |-> d], [res |-> "busy", t |-> 0, c |-> 0, acc |-> FALSE, rb |-> FALSE])
           /\ UNCHANGED <<pos, log, first, dups, ntx, nfault, fFirstPre, fAck, fBad, fFormer>>
      ELSE IF rlock.id = 0
      THEN /\ f = "none" /\ ~d /\ nidle < MaxIdle /\ nidle' = nidle + 1       \* not writeable: read-only replica
-          /\ H("RTx", [f |-> f, d |-> d], [res |-> "ro", t |-> 0, c |-> 0, acc |-> FALSE])
+          /\ H("RTx", [f |-> f, d |-> d], [res |-> "ro", t |-> 0, c |-> 0, acc |-> FALSE, rb |-> FALSE])
           /\ UNCHANGED <<pos, log, first, dups, ntx, nfault, fFirstPre, fAck, fBad, fFormer>>
      ELSE IF ~conn["R"]
      THEN /\ f = "none" /\ ~d        \* "no primary available for remote transaction"
           /\ LET fin == ~FwdFirst IN
+             /\ (fin \/ nidle < MaxIdle) /\ nidle' = IF fin THEN nidle ELSE nidle + 1
              /\ pos' = IF fin THEN [pos EXCEPT !["R"] = PosOf(e)] ELSE pos
              /\ log' = IF fin THEN [log EXCEPT !["R"] = Append(@, e)] ELSE log
              /\ fAck' = (fAck \/ fin)
              /\ ntx' = IF fin THEN ntx + 1 ELSE ntx
-             /\ H("RTx", [f |-> f, d |-> d], [res |-> IF fin THEN "ok" ELSE "refused", t |-> e.t, c |-> e.c, acc |-> FALSE])
-          /\ UNCHANGED <<first, dups, nfault, nidle, fFirstPre, fBad, fFormer>>
+             /\ H("RTx", [f |-> f, d |-> d], [res |-> IF fin THEN "ok" ELSE "refused", t |-> e.t, c |-> e.c, acc |-> FALSE, rb |-> FALSE])
+          /\ UNCHANGED <<first, dups, nfault, fFirstPre, fBad, fFormer>>
      ELSE LET x == IF f = "reqlost" THEN [acc |-> FALSE, pos |-> pos[p], log |-> log[p], bad |-> FALSE, fpub |-> FALSE]
                    ELSE TxEff(p, rlock.id, e, "R")
               okc == (f = "none" /\ x.acc) \/ ~FwdFirst          \* Client.Commit returned nil (or its error is ignored)
-          IN /\ pos' = [pos EXCEPT ![p] = x.pos, !["R"] = IF okc THEN PosOf(e) ELSE @]
-             /\ log' = [log EXCEPT ![p] = x.log, !["R"] = IF okc THEN Append(@, e) ELSE @]
-             /\ fBad' = (fBad \/ x.bad) /\ fFormer' = (fFormer \/ x.fpub)
+              \* a failed commit makes SQLite roll back; finalising the journal of the rollback is again a
+              \* commit to LiteFS (same pages as before: post = pre) and is forwarded again, without fault
+              e2 == [t |-> e.t, pre |-> e.pre, c |-> e.pre, node |-> "R", snap |-> FALSE]
+              y == IF okc THEN [acc |-> FALSE, pos |-> x.pos, log |-> x.log, bad |-> FALSE, fpub |-> FALSE]
+                   ELSE TxEffS(p, x.pos, x.log, rlock.id, e2, "R")
+              mine == IF okc THEN e ELSE e2
+              fin == okc \/ y.acc
+          IN /\ pos' = [pos EXCEPT ![p] = y.pos, !["R"] = IF fin THEN PosOf(mine) ELSE @]
+             /\ log' = [log EXCEPT ![p] = y.log, !["R"] = IF fin THEN Append(@, mine) ELSE @]
+             /\ fBad' = (fBad \/ x.bad \/ y.bad) /\ fFormer' = (fFormer \/ x.fpub \/ y.fpub)
              /\ fAck' = (fAck \/ (okc /\ ~x.acc))
              /\ fFirstPre' = (fFirstPre \/ (first /\ hhas /\ [t |-> e.t - 1, c |-> e.pre] # rlock.pos))
              /\ first' = FALSE
              /\ ntx' = ntx + 1
              /\ dups' = IF d THEN dups \cup {[k |-> "tx", to |-> p, id |-> rlock.id, e |-> e]} ELSE dups
              /\ FaultInc(f, d) /\ UNCHANGED nidle
-             /\ H("RTx", [f |-> f, d |-> d], [res |-> IF okc THEN "ok" ELSE "refused", t |-> e.t, c |-> e.c, acc |-> x.acc])
+             /\ H("RTx", [f |-> f, d |-> d], [res |-> IF okc THEN "ok" ELSE "refused", t |-> e.t, c |-> e.c, acc |-> x.acc, rb |-> y.acc])
   /\ UNCHANGED <<primary, wl, halt, rlock, hid, hhas, rpc, conn, bel, former, wedged,
                  nhandle, nexp, npc, nrogue, nblock, nckpt, fLocal, fCkpt, fIdem>>
 
@@ -370,7 +385,7 @@ Expire ==
 
 \* a well-formed contiguous LTX file posted to /tx by somebody who is not the current holder
 Rogue(lid) ==
-  /\ Go /\ nrogue < MaxRogue /\ ntx < MaxTx
+  /\ Go /\ nrogue < MaxRogue /\ ntx < MaxTx /\ NoTxUnderWriter(primary)
   /\ lid \in ({BogusId} \cup former) \ {halt[primary].id}
   /\ LET p == primary
          e == [t |-> pos[p].t + 1, pre |-> pos[p].c, c |-> ntx + 1, node |-> "X", snap |-> FALSE]
@@ -387,6 +402,7 @@ Rogue(lid) ==
 Dup ==
   /\ Go
   /\ \E m \in dups :
+       /\ (m.k = "tx" => NoTxUnderWriter(m.to))
        /\ dups' = dups \ {m}
        /\ LET p == m.to IN
           CASE m.k = "halt" ->
